@@ -14,6 +14,7 @@ import (
 func init() {
 	vHarnesses["VerifH_C18_bulkadd"] = VerifH_C18_bulkadd
 	vHarnesses["VerifH_C06_edit"] = VerifH_C06_edit
+	vHarnesses["VerifH_C17_bulkstream"] = VerifH_C17_bulkstream
 }
 
 // ---- stub graph database: records what each graph receives ----
@@ -25,6 +26,11 @@ type c18Graph struct {
 }
 
 func (g *c18Graph) BulkAdd(stream <-chan *gdbi.GraphElement) error {
+	if g.db.failBulk == g.name {
+		for range stream {
+		}
+		return errors.New("bulk load refused")
+	}
 	for e := range stream {
 		if e.Vertex != nil {
 			g.db.got = append(g.db.got, g.name+":v:"+e.Vertex.ID)
@@ -54,8 +60,9 @@ func (g *c18Graph) DelVertex(id string) error { return nil }
 func (g *c18Graph) DelEdge(id string) error   { return nil }
 
 type c18DB struct {
-	graphs []string
-	got    []string
+	graphs   []string
+	got      []string
+	failBulk string // the graph whose BulkAdd drains its stream and fails
 }
 
 func (d *c18DB) AddGraph(string) error    { return nil }
@@ -208,4 +215,65 @@ func VerifH_C06_edit() {
 	}
 	vReach("c06.edit.returned")
 	vAssert("C06.edit.returns", true)
+}
+
+
+// VerifH_C17_bulkstream (C17): one BulkAdd stream of 1..N valid vertices, each
+// addressed to graph g or h, so the handler opens and closes per-graph loader
+// goroutines while it keeps receiving; the back end of one graph may refuse its
+// load. All schedules within the deviation budget of the loader goroutines against
+// the receive loop, with happens-before race analysis of the handler's own
+// variables: every acknowledged element reaches the graph it names, in order, the
+// counts are right, the call returns.
+func VerifH_C17_bulkstream() {
+	N := vParam("N", 3)
+	n := 1 + vChoice("n", N)
+	db := &c18DB{graphs: []string{"g", "h"}}
+	switch vChoice("failing-backend", 3) {
+	case 1:
+		db.failBulk = "g"
+	case 2:
+		db.failBulk = "h"
+	}
+	srv := c18Server(db)
+	var elems []*gripql.GraphElement
+	var want []string
+	for i := 0; i < n; i++ {
+		name := "e" + string(rune('0'+i))
+		id := "x" + string(rune('0'+i))
+		graph := []string{"g", "h"}[vChoice(name+".graph", 2)]
+		if vChoice(name+".valid", 2) == 0 {
+			elems = append(elems, &gripql.GraphElement{Graph: graph, Vertex: &gripql.Vertex{Gid: id, Label: "L"}})
+			if graph != db.failBulk {
+				want = append(want, graph+":v:"+id)
+			}
+		} else {
+			elems = append(elems, &gripql.GraphElement{Graph: graph, Vertex: &gripql.Vertex{Gid: id, Label: ""}})
+		}
+	}
+	st := &c18Stream{elems: elems}
+	err := srv.BulkAdd(st)
+	vReach("c17.bulkstream.returned")
+	vAssert("C17.bulkstream.returns-result", err == nil && st.result != nil)
+	for _, g := range []string{"g", "h"} {
+		var a, b []string
+		for _, x := range db.got {
+			if x[:1] == g {
+				a = append(a, x)
+			}
+		}
+		for _, x := range want {
+			if x[:1] == g {
+				b = append(b, x)
+			}
+		}
+		ok := len(a) == len(b)
+		for i := range a {
+			if i < len(b) && a[i] != b[i] {
+				ok = false
+			}
+		}
+		vAssert("C17.bulkstream.elements-reach-their-graph", ok)
+	}
+	vAssert("C17.bulkstream.no-goroutine-left", vBlockedGoroutines() == 0)
 }
